@@ -81,6 +81,7 @@ theorem C11_once_static (t : Tree) (hs : t.static = true) : ∀ (v n : Nat),
   | W id => intro v n; simp [run, labels, Kind.label]
   | H id => intro v n; simp [run, labels, Kind.label]
   | G id => intro v n; simp [run, labels, Kind.label]
+  | JM id x _ => intro v n; simp [run, labels]
 
 /-- … hence one Eval of a static composition logs, after the old log, exactly the syntactic sequence of its
     effects/continuations, all on the evaluating goroutine — and `k` Evals log it `k` times (`C11_once`
@@ -92,6 +93,13 @@ theorem C11_once_log (t : Tree) (hs : t.static = true) (v : Nat) (g : Tag) (w : 
   simp [List.map_map, Function.comp_def]
 
 example : (Tree.FL 1 (.N 1) (.FR (.W 2))).static = true ∧ labels (.FL 1 (.N 1) (.FR (.W 2))) = [.eff 1, .call 1, .eff 2] := by decide
+
+/-- A value that is itself a MonadIO object is a value like any other: `Just(obj)` yields the object and runs nothing of
+    it, whatever the object is; composed further, the continuation receives the object. -/
+theorem C11_just_of_monad (id : Nat) (x : Tree) (v : Nat) (g : Tag) (w : World) :
+    eval (den (.JM id x) v) g w = (1000 + id, w) ∧
+    ∀ (c : Nat) (b : Tree), eval (den (.FL c (.JM id x) b) v) g w = eval (den b (1000 + id)) g (w.emit (.call c (1000 + id)) g) :=
+  ⟨rfl, fun _ _ => rfl⟩
 
 /-! ### Monad laws (equalities of `Tag → World → α × World`) -/
 
